@@ -14,6 +14,7 @@ import RedisVerif.Model.StreamActor
     CIFNEEDED <target> <min> <maxper> <now> <ttlms> <max_segments> <sz> → Compactor::compact_if_needed: as COMPACT
                                                           (`nothing` = Ok(None): below the threshold or NothingToCompact)
     REC                                                 → recovery of the current store image
+    MAN  (AMAN: the actor's store)                      → every field of the stored manifest: man v= rid= next= chk= segs=[id:count:size:min:max,..]
     INTERLEAVE <target> <min> <maxper> <now> <ttlms> <szc> <szf> → a compaction with one whole flush (of the current
                                                           buffer) between its reads and its writes:
                                                           flush=<..> compact=<..> calls=<c>          (C13)
@@ -130,6 +131,18 @@ def parseFaults : List String → Option (List (Nat × Fault))
     pure ((n, ft) :: r)
 
 def allOkO : Oracle := fun _ => .ok
+
+/-- every field of the manifest object in a store -/
+def showManifest (st : Store) : String :=
+  match NMap.get st manifestName with
+  | some (.manifest m) =>
+    let chk := match m.checkpoint with
+      | none => "-"
+      | some c => s!"{c.name}:{c.last}"
+    let segs := ",".intercalate (m.segments.map (fun sg => s!"{sg.id}:{sg.count}:{sg.size}:{sg.minTs}:{sg.maxTs}"))
+    s!"man v={m.version} rid={m.rid} next={m.next} chk={chk} segs=[{segs}]"
+  | some _ => "man unparsable"
+  | none => "man none"
 
 def showSegs (st : Store) : String :=
   match NMap.get st manifestName with
@@ -324,7 +337,16 @@ def stepX (s : St) (line : String) : Option (St × String) :=
     let lost := StreamActor.inFlight a ++ a.rejected ++ a.skipped ++ a.dropped
     let keys := sortStr (lost.map (fun d => showKey d.1))
     some (s, s!"stored={a.acked.length} missing={keys.length} {" ".intercalate keys}")
+  | ["ACOMPACT", a, b, c, d, d2, ms, e] =>
+    -- a pass of the compaction worker start_workers spawned, on the actor's store
+    match a.toNat?, b.toNat?, c.toNat?, d.toNat?, d2.toNat?, ms.toNat?, e.toNat? with
+    | some target, some mn, some mx, some now, some ttl, some maxSegs, some sz =>
+      let cfg : CompactCfg := { target := target, minSegs := mn, maxPer := mx, now := now, ttlMs := ttl }
+      let r := compactIfNeeded F cfg maxSegs sz s.act.w
+      some ({ s with act := { s.act with w := r.1 } }, s!"calls={r.1.calls} segs={showSegs r.1.store}")
+    | _, _, _, _, _, _, _ => some (s, "bad-op")
   | ["AREC"] => some (s, showRec (recover s.act.w.store s.rid))
+  | ["AMAN"] => some (s, showManifest s.act.w.store)
   | ["ALEDGER"] =>
     let a := s.act
     some (s, s!"sent={a.sent.length} accepted={a.accepted.length} acked={a.acked.length} pending={a.x.p.buffer.length} inflight={(StreamActor.inFlight a).length} rejected={a.rejected.length} skipped={a.skipped.length} dropped={a.dropped.length}")
@@ -404,6 +426,7 @@ def step (s : St) (line : String) : St × String :=
       ({ s with sys := { s.sys with w := r.1, p := p' } }, s!"flush={fo} compact={showCompact r.2.1} calls={r.1.calls}")
     | _, _, _, _, _, _, _ => (s, "bad-op")
   | ["REC"] => (s, showRec (recover s.sys.w.store s.rid))
+  | ["MAN"] => (s, showManifest s.sys.w.store)
   | ["CRASH", a, b] =>
     match a.toNat?, b.toNat? with
     | some c, some p =>
